@@ -1,6 +1,8 @@
 package rules
 
 import (
+	"math/big"
+	"go/token"
 	"strings"
 
 	"elyslint/core"
@@ -101,37 +103,59 @@ func checkUpdateHelpers(P *core.Program, R *core.Report) {
 					bad = "writes PoolAsset." + fname
 					continue
 				}
-				call, _ := ff.Fwd(st.Val).(*ssa.Call)
-				if call == nil || call.Common().StaticCallee() == nil || len(call.Common().Args) != 2 {
-					bad = "field is not updated by old.Add/Sub(amount)"
-					continue
+				// delta = stored value − old value of the same field, per way the value can
+				// come about (the Add/Sub branches, or one Add of a sign-selected amount)
+				ff.LeafKey = func(v ssa.Value) (string, bool) {
+					if ld, ok := v.(*ssa.UnOp); ok && ld.Op == token.MUL && sameLocation(ff, ld.X, fa) {
+						return "@OLD", true
+					}
+					return "", false
 				}
-				name := call.Common().StaticCallee().Name()
-				ld, isLoad := call.Common().Args[0].(*ssa.UnOp)
-				if !isLoad || !sameLocation(ff, ld.X, fa) || ff.Fwd(call.Common().Args[1]) != ssa.Value(amount) {
-					bad = "update is not old " + name + " amount"
-					continue
+				whole := ff.PolyOf(st.Val)
+				ff.LeafKey = nil
+				delta := whole.Sub(core.ParsePoly("@OLD"))
+				type dcase struct {
+					p     *core.Poly
+					facts []*core.Atom
 				}
-				// polarity from the isIncrease edge
-				want := core.Rel(-1)
-				switch name {
-				case "Add":
-					want = core.TRUE
-					nAdd++
-				case "Sub":
-					want = core.FALSE
-					nSub++
-				default:
-					bad = "unexpected operation " + name
-				}
-				okPol := false
-				for _, a := range ff.At(in) {
-					if a.Rel == want && ff.Fwd(a.A) == ssa.Value(isInc) {
-						okPol = true
+				var cases []dcase
+				if len(delta.T) == 1 {
+					for m, c := range delta.T {
+						if lv := delta.Leaf[m]; lv != nil && c.Cmp(big.NewRat(1, 1)) == 0 {
+							if _, isPhi := ff.Fwd(lv).(*ssa.Phi); isPhi {
+								for _, vc := range ff.CasesOf(lv, in, 3) {
+									cases = append(cases, dcase{ff.PolyOf(vc.Val), vc.Facts})
+								}
+							}
+						}
 					}
 				}
-				if !okPol {
-					bad = name + " is not on the matching isIncrease edge"
+				if cases == nil {
+					cases = []dcase{{delta, ff.At(in)}}
+				}
+				amtP := ff.PolyOf(amount)
+				for _, dc := range cases {
+					want := core.Rel(-1)
+					switch {
+					case dc.p.Equal(amtP):
+						want = core.TRUE
+						nAdd++
+					case dc.p.Equal(amtP.Neg()):
+						want = core.FALSE
+						nSub++
+					default:
+						bad = "update is not old ± amount (delta " + dc.p.String() + ")"
+						continue
+					}
+					okPol := false
+					for _, a := range dc.facts {
+						if a.Rel == want && ff.Fwd(a.A) == ssa.Value(isInc) {
+							okPol = true
+						}
+					}
+					if !okPol {
+						bad = "±amount is not on the matching isIncrease edge"
+					}
 				}
 			}
 		}
